@@ -14,8 +14,10 @@ RULE = ("seeded reduced-form indexed grammars (<=4 non-terminals, <=2 indices, <
         "PYTHONHASHSEED; verdict of is_empty / bool / second call / after remove_useless_rules against the exact "
         "table fixpoint; intersection with a seeded automaton against the reference product; non-trivial = "
         "grammar has a production and a consumption rule; distinct = (rule-set digest, permutation sample seed)")
-ASSUMPTIONS = ["non-terminal names avoid the product construction's reserved 'T' and tuple spellings"]
-NT = ["S", "A", "B", "C"]
+ASSUMPTIONS = ["non-terminals and terminals are different values (the library has no classes to tell them apart); a "
+               "non-terminal named like the product construction's own 'T' / 'S' is in the workload, names spelled like "
+               "its printed tuples are not"]
+NT = ["S", "A", "T", "B"]
 IDX = ["f", "g"]
 TERM = ["a", "b"]
 INTER_BUDGET = 1500000
